@@ -188,21 +188,23 @@ impl Expr {
     }
 
     fn contains_numeric_field(expr: &Expr) -> bool {
+        // arithmetic yields a number, whichever side the numeric operand is on (`2 * size`)
+        if expr.arithmetic_op.is_some() {
+            return true;
+        }
+
+        // the type of a function call is that of its result, not of its argument (`hex(size)` is text)
+        if let Some(ref function) = expr.function {
+            return function.is_numeric_function()
+                || matches!(function, Function::DayOfWeek | Function::FormatSize);
+        }
+
         let field = match expr.field {
             Some(ref field) => field.is_numeric_field(),
             None => false,
         };
 
         if field {
-            return true;
-        }
-
-        let function = match expr.function {
-            Some(ref function) => function.is_numeric_function(),
-            None => false,
-        };
-
-        if function {
             return true;
         }
 
@@ -217,6 +219,11 @@ impl Expr {
     }
 
     fn contains_datetime_field(expr: &Expr) -> bool {
+        // no function and no arithmetic results in a date (`substr(modified, 1, 4)` is text)
+        if expr.arithmetic_op.is_some() || expr.function.is_some() {
+            return false;
+        }
+
         let field = match expr.field {
             Some(ref field) => field.is_datetime_field(),
             None => false,
